@@ -409,6 +409,13 @@ where
             log::warn!(target: "wire", "Peer {nid} not found; ignoring fetch result");
             return;
         };
+        // Nb. The peer may have disconnected and reconnected since the task was started: stream
+        // ids start over with every connection, and the service matches results by repository
+        // and peer, so a late result must not be taken for one of the new connection.
+        if fd != task.session {
+            log::warn!(target: "wire", "Fetch result for {nid} belongs to an earlier connection; ignoring");
+            return;
+        }
 
         if let Peer::Connected { link, streams, .. } = peer {
             // Nb. It's possible that the stream would already be unregistered if we received an
@@ -860,6 +867,7 @@ where
                                     },
                                     stream,
                                     channels,
+                                    session: id,
                                 };
                                 if let Err(e) = self.worker.try_send(task) {
                                     log::error!(
@@ -1176,6 +1184,7 @@ where
                         },
                         stream,
                         channels,
+                        session: fd,
                     };
 
                     if !self.worker.is_empty() {
